@@ -352,6 +352,30 @@ func runC05(c *Ctx, w *World, r *Report) {
 		r.Check(bad == "", "R-TABLE", fmt.Sprintf("bmtree.idxToPath|row%d", k), w.Pos(pos), bad, fmt.Sprintf("%d constants equal the generated table", len(want)))
 	}
 	r.Units["table_constants_compared"] = nconst
+	// R-TABLE-PRIVATE: the decided constants are what IndexToPath reads only if nobody can get a writable alias of the table
+	{
+		r.Rule("R-TABLE-PRIVATE", "E1: no function of package bmtree returns memory that aliases the lookup table idxToPath (a caller writing into such a result would change what IndexToPath returns afterwards); writes to it are excluded by R-STATELESS / C19")
+		e := RunEffects(w)
+		var leaks []string
+		nf := 0
+		for _, f := range w.SourceFuncs() {
+			if fnPkg(f) == nil || w.Short(fnPkg(f)) != "bmtree" {
+				continue
+			}
+			sm := e.Sum[f]
+			if sm == nil {
+				continue
+			}
+			nf++
+			for rt := range sm.ret {
+				if rt.kind == rkGlobal && rt.g != nil && rt.g.Name() == "idxToPath" {
+					leaks = append(leaks, w.FuncName(f)+" at "+w.Pos(f.Pos()))
+				}
+			}
+		}
+		sort.Strings(leaks)
+		r.Check(len(leaks) == 0, "R-TABLE-PRIVATE", "bmtree.idxToPath", w.Pos(pos), "a result of "+strings.Join(leaks, ", ")+" may alias the table", fmt.Sprintf("%d functions of bmtree summarised, no result rooted at the table", nf))
+	}
 	if !ok {
 		return
 	}
